@@ -52,7 +52,10 @@ def run(rep, tier, seed):
         npd = dict(n_pdesc(pd), dir=DIRC[d])
         applies = [nr for nr in nrs if ref_rule_applies(npd, nr)]
         for strat in (MatchStrategy.FIRST, MatchStrategy.BEST):
-            out = obs_bits(with_timeout(lambda: cm.compress(Buffer(pkt, len(pkt) * 8), direction=d, match_strategy=strat)))
+            res_ = with_timeout(lambda: cm.compress(Buffer(pkt, len(pkt) * 8), direction=d, match_strategy=strat))
+            out = obs_bits(res_)
+            from schc_run import bytes_cm_compress
+            bytes_cm_compress(b, 'manager-compress', stack, pkt, d, strat == MatchStrategy.FIRST, ctx_.ruleset, res_)
             fails = []
             if not applies and out != ('EXC', 'RuleDescriptorMatchError'):
                 fails.append('no rule matches but compress gave %s instead of the rule-match error' % (str(out)[:80],))
